@@ -24,6 +24,8 @@ package bitswap
 //@   property C10 C06
 //@   requires rb != nil && 0 <= rb.ID.RowIndex && rb.ID.RowIndex < len(root.RowRoots)
 //@   modifies rb
+//@   havoc $RowVerified
+//@   ensures err == nil && len(old(rb.Container.shares)) == 0 ==> $RowVerified
 //@   ensures rb.ID == old(rb.ID)
 //@   ensures err != nil ==> rb.Container == old(rb.Container)
 //@   ensures len(old(rb.Container.shares)) != 0 ==> rb.Container == old(rb.Container)
@@ -69,6 +71,8 @@ package bitswap
 //@   property C10 C06
 //@   requires rndb != nil && root != nil
 //@   modifies rndb
+//@   havoc $RangeVerified
+//@   ensures err == nil && old(rangeEmpty(rndb.Container)) ==> $RangeVerified
 //@   ensures rndb.ID == old(rndb.ID)
 //@   ensures err != nil ==> rndb.Container == old(rndb.Container)
 //@   ensures !old(rangeEmpty(rndb.Container)) ==> rndb.Container == old(rndb.Container)
